@@ -46,8 +46,10 @@ void messenger::transmit(tcp_operation_header &h,std::string &data)
 {
 	bool done=false;
 	int times=0;
+	tcp_operation_header const request=h;
 	do {
 		try {
+			h=request;
 			booster::aio::const_buffer packet = booster::aio::buffer(&h,sizeof(h));
 			if(h.size > 0)
 				packet += booster::aio::buffer(data.c_str(),h.size);
